@@ -30,18 +30,21 @@ def main():
     checks = ALL
     if "--checks" in sys.argv:
         checks = sys.argv[sys.argv.index("--checks") + 1].split(",")
+    base = "HEAD"
+    if "--base" in sys.argv:
+        base = sys.argv[sys.argv.index("--base") + 1]
     wt = f"/tmp/sv/{name}"
     shutil.rmtree(wt, ignore_errors=True)
     os.makedirs("/tmp/sv", exist_ok=True)
     sh(["git", "-C", "/repo", "worktree", "prune"])
-    rc, out = sh(["git", "-C", "/repo", "worktree", "add", "--detach", wt, "HEAD"])
+    rc, out = sh(["git", "-C", "/repo", "worktree", "add", "--detach", wt, base])
     if rc != 0:
         print("worktree failed", out)
         sys.exit(2)
     env = dict(os.environ)
     env["CARGO_TARGET_DIR"] = os.path.join(wt, "target")
     env["CARGO_NET_OFFLINE"] = "true"
-    res = {"property": prop, "name": name, "repo_head": sh(["git", "-C", "/repo", "rev-parse", "--short", "HEAD"])[1].strip()}
+    res = {"property": prop, "name": name, "repo_head": sh(["git", "-C", "/repo", "rev-parse", "--short", base])[1].strip()}
     try:
         demo_dst = os.path.join(wt, "microscpi", "tests", "demo_seed.rs")
         shutil.copy(os.path.join(d, "demo.rs"), demo_dst)
